@@ -7,8 +7,7 @@ Model of the shooting move (C09) of infretis/core/tis.py, on order values:
   paste_paths             (path.py:352-421), Path.__iadd__ (path.py:186-202)
   Path.check_interfaces   (path.py:75-89)
   run_md                  (tis.py:70-107)    only the replacement of the live path
-(wire_fencing / extender / subt_acceptance, tis.py:476-675, are NOT modelled here; the harness
-judges that move by direct predicates only.)
+and, last section, of wire_fencing / extender / subt_acceptance (tis.py:476-675).
 
 The MD engine is abstract: a pair of order-value streams (what the MD program produces after
 the shooting point, backward and forward in time) consumed through `add_to_path`
@@ -109,7 +108,7 @@ def checkInterfaces (ops : List Int) (l m r : Int) : WF.Side × WF.Side × Bool 
   | _, _, _, _ => (.U, .U, false)
 
 inductive Status
-  | ACC | KOB | BTL | BTX | BWI | FTL | FTX | ZL /- "0-L" -/ | NCR
+  | ACC | KOB | BTL | BTX | BWI | FTL | FTX | ZL /- "0-L" -/ | NCR | NSG
 deriving Repr, DecidableEq
 
 inductive Err
@@ -252,5 +251,163 @@ def runMd (v : Variant) (i : ShootIn) : Except Err MdOut :=
   | .ok o =>
     if o.status = .ACC then .ok { status := o.status, live := o.trial, replaced := true, trialLen := o.trial.length }
     else .ok { status := o.status, live := i.old, replaced := false, trialLen := o.trial.length }
+
+/-! ### wire_fencing (tis.py:476-569), extender (615-675), subt_acceptance (572-612)
+
+Inputs beyond the ensemble settings: the ξ of the segment pick, per jump the outcome of the
+`integers` draw, the kicked order value and the two engine streams, and the two engine streams of
+the extender.  `mc_move` is "wf" (the only way `select_shoot` reaches this function). -/
+
+structure WfJump where
+  idx : Nat
+  kick : Int
+  back : List Int
+  forw : List Int
+deriving Repr
+
+structure WfIn where
+  old : List Int
+  oldTimeOrigin : Int
+  l : Int
+  m : Int
+  r : Int
+  cap : Option Int             -- tis_set.get("interface_cap", interfaces[2]) : none = key absent
+  maxlength : Nat
+  nJumps : Nat                 -- tis_set.get("n_jumps", 2)
+  sc : StartCond               -- the `start_cond` argument
+  scEns : StartCond            -- ens_set["start_cond"] (goes into sub_ens)
+  xiSeg : Rat                  -- outcome of the `random` draw of the segment pick
+  jumps : List WfJump
+  extBack : List Int
+  extForw : List Int
+deriving Repr
+
+structure WfOut where
+  accept : Bool
+  status : Status
+  path : List Int              -- order values of the returned path
+  returnedOld : Bool           -- the returned object IS the old path (NSG)
+  oldRewritten : Bool          -- old.status / old.generated were overwritten (succ_seg = 0): frames intact
+  genSucc : Nat                -- generated = ("wf", 9000, genSucc, genLen)
+  genLen : Nat
+  timeOrigin : Int
+  draws : List Draw
+deriving Repr, DecidableEq
+
+def capOf (i : WfIn) : Int :=
+  match i.cap with
+  | some c => c
+  | none => i.r
+
+/-- `set(start_cond) == set(start)` where `start` is 'L', 'R' or '?' -/
+def scIs (sc : StartCond) (s : WF.Side) : Bool :=
+  match s with
+  | .L => sc.hasL && !sc.hasR
+  | .R => !sc.hasL && sc.hasR
+  | .U => false
+
+/-- the sub-ensemble shoot of one jump: interfaces `[m, m, cap]`, `allowmaxlength = True` (set on the
+    shared tis_set dict before the loop), `start_cond = ("L", "R")`, `sub_ens["start_cond"]` from the
+    ensemble; the segment's `generated` is "ct" or an "sh" tuple, never "ld" -/
+def subShootIn (i : WfIn) (seg : List Int) (segTO : Int) (j : WfJump) : ShootIn :=
+  { old := seg, oldTimeOrigin := segTO, genLd := false, l := i.m, m := i.m, r := capOf i,
+    maxlength := i.maxlength, allowMax := true, sc := { hasL := true, hasR := true },
+    scEns := some i.scEns, idx := j.idx, xi := 0, kick := j.kick, back := j.back, forw := j.forw }
+
+/-- the `for i in range(n_jumps)` loop: state = current segment (ops, time_origin), succ_seg, draws -/
+def wfJumps (v : Variant) (i : WfIn) : Nat → List WfJump → List Int → Int → Nat → List Draw →
+    Except Err (List Int × Int × Nat × List Draw)
+  | 0, _, seg, to, succ, d => .ok (seg, to, succ, d)
+  | _ + 1, [], _, _, _, _ => .error .badDraw
+  | n + 1, j :: js, seg, to, succ, d =>
+    match shoot v (subShootIn i seg to j) with
+    | .error e => .error e
+    | .ok o =>
+      if o.accept = true then wfJumps v i n js o.trial o.timeOrigin (succ + 1) (d ++ o.draws)
+      else wfJumps v i n js seg to succ (d ++ o.draws)
+
+/-- `extender(source_seg, engine, ens_set, start_cond)` → (success, status, ops, time_origin).
+    The return value of `shoot_backwards` is ignored by the code; its `left <= right` assertion cannot
+    fire here because `l ≤ first < r`. The forward part replaces the last frame by the whole forward
+    segment without any length limit; only the final `length >= maxlength` test rejects. -/
+def extender (v : Variant) (i : WfIn) (seg : List Int) (segTO : Int) :
+    Except Err (Bool × Status × List Int × Int) :=
+  match seg.head? with
+  | none => .error .index
+  | some first =>
+    let r1 : Except Err (List Int × Int) :=
+      if i.l ≤ first ∧ first < i.r then
+        match feedV v i.l i.r (some i.maxlength) [] (first :: i.extBack) 0 with
+        | none => .error .index
+        | some (pb, _, _) => .ok (paste pb seg i.maxlength, segTO - pb.length + 1)
+      else .ok (seg, segTO)
+    match r1 with
+    | .error e => .error e
+    | .ok (t1, to1) =>
+      match t1.getLast? with
+      | none => .error .index
+      | some last =>
+        let r2 : Except Err (List Int) :=
+          if i.l ≤ last ∧ last < i.r then
+            match feedV v i.l i.r (some i.maxlength) [] (last :: i.extForw) 0 with
+            | none => .error .index
+            | some (pf, _, _) => .ok (t1.dropLast ++ pf)
+          else .ok t1
+        match r2 with
+        | .error e => .error e
+        | .ok t2 =>
+          if t2.length ≥ i.maxlength then .ok (false, .FTX, t2, to1) else .ok (true, .ACC, t2, to1)
+
+/-- `subt_acceptance` for `mc_move == "wf"`: the start point is judged against `(l, cap)`;
+    `compute_weight` / `get_start_point` assert `l ≤ cap`. A reversed path is a new object
+    (time_origin 0). The `weight` attribute it sets is never read anywhere and is not modelled. -/
+def subtAcceptance (i : WfIn) (t : List Int) (to : Int) : Except Err (Bool × Status × List Int × Int) :=
+  if capOf i < i.l then .error .assert
+  else
+    match t.head?, t.getLast? with
+    | some first, some last =>
+      if scIs i.sc (WF.startPoint i.l (capOf i) first) = true then .ok (true, .ACC, t, to)
+      else if scIs i.sc (WF.startPoint i.l (capOf i) last) = true then .ok (true, .ACC, t.reverse, 0)
+      else .ok (false, .BWI, t.reverse, 0)
+    | _, _ => .error .index
+
+def wireFencing (v : Variant) (i : WfIn) : Except Err WfOut :=
+  let c := capOf i
+  -- wirefence_weight_and_pick(old, m, cap, return_seg=True): draws only when n_frames ≠ 0
+  if WF.weight i.m c i.old = 0 then
+    .ok { accept := false, status := .NSG, path := i.old, returnedOld := true, oldRewritten := false,
+          genSucc := 0, genLen := 0, timeOrigin := i.oldTimeOrigin, draws := [] }
+  else
+  let seg0 : List Int := match WF.pick i.m c i.old i.xiSeg with
+    | some (a, b, _) => (i.old.drop a).take (b + 1 - a)
+    | none => []                       -- ξ > 1 only: an empty segment
+  match wfJumps v i i.nJumps i.jumps seg0 i.oldTimeOrigin 0 [.random] with
+  | .error e => .error e
+  | .ok (seg, segTO, succ, draws) =>
+  if succ = 0 then
+    -- `trial_path` is still the OLD path object: its status and generated are overwritten
+    .ok { accept := false, status := .NSG, path := i.old, returnedOld := true, oldRewritten := true,
+          genSucc := 0, genLen := i.old.length, timeOrigin := i.oldTimeOrigin, draws := draws }
+  else
+  match extender v i seg segTO with
+  | .error e => .error e
+  | .ok (ok1, st1, t1, to1) =>
+  match (if ok1 = true then subtAcceptance i t1 to1 else .ok (ok1, st1, t1, to1)) with
+  | .error e => .error e
+  | .ok (ok2, st2, t2, to2) =>
+  if ok2 = false then
+    .ok { accept := false, status := st2, path := t2, returnedOld := false, oldRewritten := false,
+          genSucc := succ, genLen := t2.length, timeOrigin := to2, draws := draws }
+  else
+  -- assert set(start_cond) == set(trial_path.get_start_point(left, right))  (which asserts left ≤ right)
+  if i.r < i.l then .error .assert
+  else
+  match t2.head? with
+  | none => .error .index
+  | some first =>
+    if scIs i.sc (WF.startPoint i.l i.r first) = false then .error .assert
+    else
+      .ok { accept := true, status := .ACC, path := t2, returnedOld := false, oldRewritten := false,
+            genSucc := succ, genLen := t2.length, timeOrigin := to2, draws := draws }
 
 end Infretis.Moves
